@@ -38,7 +38,8 @@ func workload(seed int64, udp bool) scenario {
 	for i := 0; i < 4; i++ {
 		body := make([]byte, 46)
 		rng.Read(body)
-		body[42] = 0xC3
+		// three ID-string bytes in each of the encodings: 8-bit Latin-1, packed 6-bit ASCII, BCD plus, "Unicode"
+		body[42] = []byte{0xC3, 0x83, 0x43, 0x03}[rng.Intn(4)]
 		rec := append([]byte{byte(i + 1), 0, 0x51, 0x01, byte(len(body))}, body...)
 		sc.BMC.SDRs = append(sc.BMC.SDRs, scnSDR{ID: uint16(i + 1), Data: fmt.Sprintf("%x", rec)})
 	}
